@@ -130,6 +130,18 @@ case("F38 cohort non-contiguous along two separated block axes", f38, lambda r: 
 # F39
 case("F39 unsorted axis tuple on a dask array", lambda: groupby_reduce(da.from_array(np.arange(24.).reshape(4, 6), chunks=((2, 2), (3, 3))), np.array([[0, 1, 0, 1, 2, 1]] * 2 + [[2, 0, 2, 3, 3, 3]] * 2), func="sum", axis=(1, 0))[0].compute().tolist(), lambda r: r == [48.0, 36.0, 78.0, 114.0])
 
+# F40
+case("F40 argmax of datetime64 data", lambda: groupby_reduce(np.array(["2001-01-01", "2001-01-05", "2001-01-03", "2001-01-02"], "M8[ns]"), np.array([0, 0, 1, 1]), func="argmax")[0].tolist(), lambda r: r == [1, 2])
+# F41
+case("F41 nanfirst, flox engine, size-1 label dimension", lambda: groupby_reduce(np.array([[np.nan, 2.0], [3.0, 4.0]]), np.array([[0, 0]]), func="nanfirst", engine="flox")[0].tolist(), lambda r: r == [2.0])
+# F42
+def f42():
+    from flox.core import ReindexStrategy
+    return groupby_reduce(da.from_array(np.arange(6.), chunks=2), np.array([0, 1, 0, 1, 2, 2]), func="argmax", reindex=ReindexStrategy(blockwise=True))[0].compute()
+
+
+case("F42 ReindexStrategy(blockwise=True) with an arg reduction", f42, lambda r: False, refusal_ok=True)
+
 bad = 0
 for name, verdict in results:
     print(f"{name:55s} {verdict}")
